@@ -165,6 +165,9 @@ type Action struct {
 	// Snippets list, 4 ONE Render call of Sprintf("%v%v...", parts as snippets)
 	Parts []string `json:"parts,omitempty"`
 	Route int      `json:"route,omitempty"`
+	// ChainImports: import paths referenced only at the ROOT of a longer selector chain (`var _ = pkg.V.Field.Sub`,
+	// `pkg.F().M()`), never as a plain pkg.Name
+	ChainImports []string `json:"chain_imports,omitempty"`
 	// DocOfFieldTypes: ask Context.Doc about the named type of every field of the struct (whatever package
 	// it lives in, the way runtimedoc / partialstruct style generators do) and render what was answered
 	DocOfFieldTypes bool `json:"doc_of_field_types,omitempty"`
@@ -245,6 +248,11 @@ func (in *inst) perform(c gengo.Context, gen string, a Action, typ string) error
 	}
 	for i, imp := range a.Imports {
 		c.RenderT("var _"+fmt.Sprint(i)+"_"+typ+"_"+gen+" @x\n", snippet.Arg("x", snippet.PkgExpose(subst(imp, strings.ToLower(typ), gen, pkgName), "X")))
+	}
+	for i, imp := range a.ChainImports {
+		c.RenderT("var _c"+fmt.Sprint(i)+"_"+typ+"_"+gen+" = @x.Field.Sub\n\nfunc _f"+fmt.Sprint(i)+"_"+typ+"_"+gen+"() { _ = @y().Method().Name }\n",
+			snippet.Arg("x", snippet.PkgExpose(subst(imp, strings.ToLower(typ), gen, pkgName), "V")),
+			snippet.Arg("y", snippet.PkgExpose(subst(imp, strings.ToLower(typ), gen, pkgName), "F")))
 	}
 	if a.Render != "" {
 		c.Render(snippet.Block(subst(a.Render, typ, gen, pkgName)))
